@@ -294,7 +294,7 @@ type c17Path struct {
 	priv   int
 }
 
-var c17Leaves = []string{"str", "mapss", "ints", "array", "nilptr", "int", "mapsi"}
+var c17Leaves = []string{"str", "mapss", "ints", "array", "nilptr", "int", "mapsi", "ints12"}
 var c17Nest = []string{"mapany", "sliceany", "struct", "ptr", "ptrptr", "mapstruct", "ptrmap", "ptrslice", "embed", "clash"}
 
 // c17Clash: the JSON tag of one field is spelled like the Go name of a later field. A step
@@ -325,6 +325,8 @@ func c17Build(desc string) any {
 		v = map[string]int{"k": 5, "0": 6, "1": 7, "-1": 8}
 	case "ints":
 		v = []int{7, 8}
+	case "ints12": // indices of more than one digit
+		v = []int{100, 101, 102, 103, 104, 105, 106, 107, 108, 109, 110, 111}
 	case "array":
 		v = [2]string{"a0", "a1"}
 	case "nilptr":
@@ -362,7 +364,7 @@ func c17Build(desc string) any {
 	return v
 }
 
-var c17Steps = []string{"k", "0", "1", "9", "-1", "Field", "tag", "priv", "Tagged", "x.y"}
+var c17Steps = []string{"k", "0", "1", "9", "10", "-1", "Field", "tag", "priv", "Tagged", "x.y"}
 
 // refStep is ordinary Go indexing: (value, ok, defined)
 func refStep(cur any, step string) (any, bool, bool) {
